@@ -50,7 +50,7 @@ JudgeStats(e, s1) ==
 
 Bump(s, f) == [s EXCEPT ![f] = @ + 1]
 
-TInit == l = 1 /\ stats = [judged |-> 0, exact |-> 0, fuzzy |-> 0, notwf |-> 0, steps |-> 0, cmds |-> 0,
+TInit == l = 1 /\ stats = [judged |-> 0, exact |-> 0, fuzzy |-> 0, notwf |-> 0, cmds |-> 0,
                            withsubrs |-> 0, withmask |-> 0, withwidth |-> 0, deep |-> 0, blends |-> 0, empty |-> 0]
 
 \* r is an operator parameter so that the interpretation is evaluated once per event
@@ -63,7 +63,7 @@ Stats(r) ==
            f == IF r.maxDepth > 2 THEN Bump(d, "deep") ELSE d
            g == IF r.seenBlend THEN Bump(f, "blends") ELSE f
            h == IF r.cmds = <<>> THEN Bump(g, "empty") ELSE g IN
-       [h EXCEPT !.cmds = @ + Len(r.cmds), !.steps = @ + r.steps]
+       [h EXCEPT !.cmds = @ + Len(r.cmds)]
   ELSE Bump(stats, "notwf")
 
 Judge(e, r) ==
